@@ -134,7 +134,15 @@ def kind_independence(run, model, w, rule='KIND.wiring'):
     regs = set(w.registry.values())
     selfn = w.subscribe.params[0]
     bad = []
+    # in the written-out form the selector itself binds the registry local: those reads *are* the selection, not a second look
+    selecting = set()
+    if getattr(w, 'inline', False):
+        for n in walk_shallow(h.node):
+            if isinstance(n, ast.Assign) and any(isinstance(t, ast.Name) and t.id == h.params[0] for t in n.targets):
+                selecting |= {id(x) for x in ast.walk(n.value)}
     for n in walk_shallow(h.node):
+        if id(n) in selecting:
+            continue
         d = dotted(n) if isinstance(n, ast.Attribute) else None
         if d and d.startswith(selfn + '.') and d.split('.', 1)[1] in regs:
             bad.append(d)
@@ -218,7 +226,9 @@ def check(run, model, tier):
     dels = [n for n in g.nodes if n.kind == 'stmt' and isinstance(n.ast, ast.Delete)]
     run.floor('registry append sites in subscribe', len(appends), 1)
     run.floor('new-signal registration sites in subscribe', len(news), 1)
-    mods = appends + stores + news
+    # creating an empty slot (`registry[name] = []`) registers nobody yet: it is completed by the append that must follow it
+    empty_news = [n for n in news if isinstance(n.ast.value, ast.List) and not n.ast.value.elts]
+    mods = appends + stores + [n for n in news if n not in empty_news]
     cnt = queues.count(g, mods)
     ok = cnt is not None and cnt[1] <= 1
     run.inst('SUBSCRIBE.paths', h, 'at most one registry modification per subscribe', ok,
@@ -237,6 +247,9 @@ def check(run, model, tier):
     for nn in news:
         v = nn.ast.value
         ok = isinstance(v, ast.List) and len(v.elts) == 1 and isinstance(v.elts[0], ast.Name) and v.elts[0].id == queue_name
+        if nn in empty_news:
+            # the append that completes the empty slot may sit behind the identity test (vacuously true for an empty list)
+            ok = queues.count(g, appends, start=nn) in ((1, 1), (0, 1))
         run.inst('SUBSCRIBE.paths', h, 'a new signal starts with [queue]', ok, '' if ok else 'new registry entry is %s' % norm(v), node=nn.ast, obligation=True)
     atomic_subscribe(run, model, w)
     # ---- KIND.wiring
